@@ -85,6 +85,10 @@ package geom
 //@ func tryfit
 //@   ensures[ends] result0.p0 == bz0.p0 && result0.p3 == bz0.p3
 
+// alphas walks the parameter list and reads the tangent pair and the path point of the same index
+//@ func alphas
+//@   requires[|C01] len(a) >= len(t) && len(path) >= len(t) && len(path) >= 1
+
 // the split index lies strictly inside the path
 //@ func ctrlp.maxerr
 //@   requires len(path) == len(t) && len(path) >= 3
